@@ -89,6 +89,7 @@ Proof. exact tight_k1_guarantees. Qed.
     that fits the worker's free resources.  (The inversions K1..K5 come from granting more than this
     capacity, or from tasks that are not inside it, never from the gap notion itself.) *)
 Theorem C15_gap_leaves_room : forall I w h G,
+  no_all I ->
   gap_resources I w h = Ok G ->
   request_wf (req_of I h) -> request_nodup (req_of I h) ->
   (exists e, In e (req_of I h) /\ (rv_get (w_res w) (fst e) / snd e < SCHED_MAX_TASK_PER_WORKER)%N) ->
@@ -124,7 +125,8 @@ Definition C15_no_inversion_exact_class_full : Prop :=
     (forall s', feasible m s' = true -> (objective m s' <= objective m s)%Z) ->
     mapping_ok I bs s d = true -> inversion I d = false.
 
-(** C05, row-system half (used by the cluster component): a feasible point of the row system, turned
+(** C05, row-system half (used by the cluster component).  [inst_on I w] resolves the classes for worker
+    [w]: an entry with the [All] policy demands the worker's TOTAL of that resource.  A feasible point of the row system, turned
     into a dispatch accepted by [mapping_ok], never overbooks a worker, and tasks are only placed where
     the request fits the free resources, is not blocked and the worker has enough remaining time. *)
 Theorem C05_feasible_no_overbook : forall I bs m s d,
@@ -132,8 +134,8 @@ Theorem C05_feasible_no_overbook : forall I bs m s d,
   create_task_batches I = Ok bs -> milp_of I bs = Ok m -> feasible m s = true -> mapping_ok I bs s d = true ->
   forall w, In w (i_workers I) ->
     (exists v, free_after I d w = Some v
-               /\ forall r, rv_get v r = (rv_get (w_free w) r - demand I (rqs_on I d (w_id w)) r)%N)
-    /\ (forall r, (demand I (rqs_on I d (w_id w)) r <= rv_get (w_free w) r)%N)
+               /\ forall r, rv_get v r = (rv_get (w_free w) r - demand (inst_on I w) (rqs_on I d (w_id w)) r)%N)
+    /\ (forall r, (demand (inst_on I w) (rqs_on I d (w_id w)) r <= rv_get (w_free w) r)%N)
     /\ (forall rq, In rq (rqs_on I d (w_id w)) -> placeable I w rq = true).
 Proof. exact C05_feasible_no_overbook_thm. Qed.
 
